@@ -14,7 +14,7 @@ def _v(*alts):
     return st.sampled_from([list(a) for a in alts])
 
 
-TRUTHY_PRIMS = _v(["i", 0], ["i", 1], ["i", 2], ["s", ""], ["s", "x"], ["n"], ["b", True],
+TRUTHY_PRIMS = _v(["i", 0], ["i", 1], ["i", 2], ["s", ""], ["s", "x"], ["n"], ["n"], ["n"], ["b", True],
                   ["b", False], ["f", 0.0], ["f", 0.5], ["l", []], ["l", [["i", 0]]], ["t", []])
 NUM_PRIMS = st.one_of(
     st.integers(-2, 5).map(lambda n: ["i", n]),
